@@ -35,8 +35,11 @@ def gen_program(rng, profile):
             depth = 0
             for _ in range(rng.randint(1, 3)):
                 if rng.random() < (0.45 if profile == "wait" else 0.15) and depth < 2:
-                    p.append("dqnb")
+                    # the second object of a nest is sometimes a copy of the first
+                    p.append("dqnc" if depth and rng.random() < 0.5 else "dqnb")
                     depth += 1
+                if depth and rng.random() < 0.2:
+                    p.append("dqna")
                 p.append("enq")
                 if depth and rng.random() < 0.5:
                     p.append("dqne")
@@ -60,7 +63,7 @@ def wf_for_c07(progs):
         for i, c in enumerate(p):
             if c in ("wait", "waitfor") and (i + 1 >= len(p) or p[i + 1] != "proc"):
                 return False
-            if c == "dqnb":
+            if c in ("dqnb", "dqnc"):
                 depth += 1
             if c == "dqne":
                 depth -= 1
@@ -71,16 +74,24 @@ def wf_for_c07(progs):
     return True
 
 
+def model_progs(progs):
+    """the programs as the model sees them: a copy of a DisableQueueNotify is one more object (dqnb), a temporary
+    assigned to a live one is an object that comes and goes (dqnb dqne)"""
+    return [[x for c in p for x in {"dqnc": ["dqnb"], "dqna": ["dqnb", "dqne"]}.get(c, [c])] for p in progs]
+
+
 def run_text(name, progs, seed, spur):
     return "--- %s\nseed %d\nspur %d\n" % (name, seed, spur) + "".join("thread %s\n" % " ".join(p) for p in progs)
 
 
 def parse(section):
-    d = dict(steps=[], notes=[], rets={}, queue=[], counters=None, consumed=[], parked=[], terminal=None, mismatch=[], cleared=None, c11bad=[])
+    d = dict(steps=[], notes=[], rets={}, queue=[], counters=None, consumed=[], parked=[], terminal=None, mismatch=[], cleared=None, c11bad=[], log=[])
     for l in section:
         t = l.split()
         if not t:
             continue
+        if t[0] in ("step", "note", "mark"):
+            d["log"].append(t)
         if t[0] == "step":
             d["steps"].append(l)
         elif t[0] == "note":
@@ -106,8 +117,54 @@ def parse(section):
     return d
 
 
+def c11_on_trace(progs, d):
+    """C11 on the implementation's own trace (no model involved): an emptyQueue() that returned true must find every
+    event whose enqueue had completed before the call began consumed.  A call is taken to begin at its first shared
+    access and to be over at its last one (no other thread can tell the difference), an event counts as consumed when its
+    listener has run / when takeEvent took it out under the lock.  Programs with clearEvents or with calls that put events
+    back (the property excludes them) are not judged."""
+    if any(c in PUTBACK or c == "clear" for p in progs for c in p):
+        return None
+    cur = {}          # thread -> dict(call, first, last)
+    enq_done = {}     # gid -> index of the last step of its enqueue
+    consumed_at = {}  # gid -> index
+    last_cs = {}
+    for i, t in enumerate(d["log"]):
+        if t[0] == "mark" and t[2] == "begin":
+            cur[t[1]] = dict(call=t[3], first=None, last=None)
+        elif t[0] == "step":
+            c = cur.get(t[1])
+            if c is not None:
+                if c["first"] is None:
+                    c["first"] = i
+                c["last"] = i
+            if t[2] == "cs":
+                last_cs[t[1]] = i
+        elif t[0] == "note" and t[2] == "dispatched":
+            consumed_at.setdefault(int(t[3]), i)
+        elif t[0] == "note" and t[2] == "taken":
+            consumed_at.setdefault(int(t[3]), last_cs.get(t[1], i))
+        elif t[0] == "mark" and t[2] == "end":
+            c = cur.pop(t[1], None)
+            if c is None:
+                continue
+            if t[3] == "enq" and len(t) > 5 and int(t[5]) >= 0 and c["last"] is not None:
+                enq_done[int(t[5])] = c["last"]
+            if t[3] == "empty" and t[4] == "true" and c["first"] is not None:
+                owed = sorted(g for g, at in enq_done.items() if at < c["first"] and not (g in consumed_at and consumed_at[g] < c["last"]))
+                if owed:
+                    return "C11", ("emptyQueue() on thread %s returned true although events %s, whose enqueue had completed before the call made its "
+                                   "first access, were not consumed yet when it made its last one" % (t[1], owed))
+    return None
+
+
 def impl_oracles(progs, d):
     """property-level checks on the implementation's own output. returns (prop, message) or None"""
+    r = c11_on_trace(progs, d)
+    if r:
+        return r
+    wf = wf_for_c07(progs)
+    progs = model_progs(progs)      # one result per model call
     for l in d["notes"]:
         if "waitfor-duration-altered" in l:
             return "C07", "waitFor handed the condition variable %s ns instead of the caller's 1500000 ns: it gives up before (or after) its time-out" % l.split()[-1]
@@ -138,7 +195,12 @@ def impl_oracles(progs, d):
         seq = [c[0] for c in d["consumed"]]
         if seq != sorted(seq):
             return "C06", "single consumer consumed out of enqueue order: %s" % seq
-    if d["terminal"] == 1 and d["parked"] and d["queue"] and d["counters"] and d["counters"][1] == 0 and wf_for_c07(progs):
+    # DisableQueueNotify objects alive at the end, counted from the calls that were made (not from the library's counter)
+    live = 0
+    for t, p in enumerate(progs):
+        for c in p[:len(d["rets"].get(t, []))]:
+            live += {"dqnb": 1, "dqne": -1}.get(c, 0)
+    if d["terminal"] == 1 and d["parked"] and d["queue"] and live == 0 and wf:
         return "C07", "all remaining threads %s are blocked in wait while events %s are pending and notification is enabled" % (d["parked"], d["queue"])
     return None
 
